@@ -265,9 +265,10 @@ fn run_scenario(w: &mut Worker, sc: &Scenario, tier: Tier) -> CaseOut {
     }
     let btid = calls[0].tid.clone();
     let mut faults: Vec<(&str, String)> = vec![("kill", "signal=SIGKILL".into()), ("ENOSPC", "error=ENOSPC".into()), ("EIO", "error=EIO".into())];
-    if tier == Tier::Thorough {
-        faults.push(("short-write", "retval=3".into()));
-    }
+    // (A faked short write — `retval=n` — is NOT used: strace then skips the system call altogether,
+    // so the kernel "reports" bytes it never wrote, which no real file system does. It made the
+    // follow-ups fail on the unchanged tree and was withdrawn as an unsound fault model.)
+    let _ = tier;
     let mut table: Vec<J> = Vec::new();
     let (mut hits, mut planned) = (0u64, 0u64);
     for (ci, call) in calls.iter().enumerate() {
@@ -407,7 +408,7 @@ pub fn run(cfg: &Cfg) -> i32 {
         ev,
         Finish {
             level: "fault_enumeration",
-            rule: "one update cycle of the real client in a child process (all datastore I/O on one thread); a baseline strace (-f -y) lists every openat/write/rename/unlink/... whose path or fd lies in the datastore directory; for EVERY such call and every fault in {SIGKILL at entry, ENOSPC, EIO (+ fake short write, + a second kill in thorough)} the pre-cycle datastore is restored and the cycle re-run with `strace -e inject=<syscall>:<fault>:when=<per-thread ordinal>`; the hit is verified from the injected run's own log. Follow-ups in fresh processes on copies of the post-fault datastore: every genuine older state must be refused, the current state must load. Scenarios: re-check of the trusted state, timestamp-only upgrade, all-roles upgrade, consistent snapshots, delegated role, key-rotation cycle. One evaluation = one client process. distinct_nontrivial = injected runs that verifiably hit a datastore call.",
+            rule: "one update cycle of the real client in a child process (all datastore I/O on one thread); a baseline strace (-f -y) lists every openat/write/rename/unlink/... whose path or fd lies in the datastore directory; for EVERY such call and every fault in {SIGKILL at entry, ENOSPC, EIO (+ a second kill at the same call in thorough)} the pre-cycle datastore is restored and the cycle re-run with `strace -e inject=<syscall>:<fault>:when=<per-thread ordinal>`; the hit is verified from the injected run's own log. Follow-ups in fresh processes on copies of the post-fault datastore: every genuine older state must be refused, the current state must load. Scenarios: re-check of the trusted state, timestamp-only upgrade, all-roles upgrade, consistent snapshots, delegated role, key-rotation cycle. One evaluation = one client process. distinct_nontrivial = injected runs that verifiably hit a datastore call.",
             assumptions: vec![
                 "process death and failing system calls only; power loss (un-fsynced data) is not simulated".into(),
                 "a kill 'immediately after' call k is realised as a kill at entry of call k+1".into(),
